@@ -229,3 +229,11 @@ func ParamOr(name string, def int) int {
 	}
 	return def
 }
+
+// Engine-only hooks of the NATS adapter harness (C18). Natively the NATS
+// client library needs a server, so that harness has no native mode.
+func NatsSubs() []any              { return nil }
+func NatsUnsubscribed(sub any) int { return 0 }
+func NatsFailPublish(fail bool)    {}
+func ArmedTimers() int             { return 0 }
+func FireTimer(k int) bool         { return false }
